@@ -2,6 +2,9 @@ import Storrent.Model.Sched
 import Storrent.Lemmas.Sched
 import Storrent.Lemmas.SchedAvail
 import Storrent.Lemmas.SchedUnder
+import Storrent.Lemmas.SchedFifo
+import Storrent.Lemmas.SchedSat
+import Storrent.Lemmas.SchedHist
 /-
 C09 — Scheduler bookkeeping is conserved.
 
@@ -179,25 +182,35 @@ theorem advertised_eq (s : State) (hW : AWF s) (i : Nat) : advertised s i = bitS
   | true => simp
   | false => simp [hW.dead p hp ha i]
 
+/-- The "Eek!  Available underflow." branch of `noteAvailable` is unreachable (below the `uint16`
+    saturation): the availability events of one peer reach the torrent in the order in which the
+    peer emitted them — `writeEvent` bypasses the overflow list only when it is empty, `Run` moves
+    its head to the tail of `t.Event` — so, per peer and piece, the signs in transit alternate and
+    end at the peer's current bit, and a retraction is applied only after its announcement. -/
+theorem C09_available_never_underflows (g : Geom) (tcap : Nat) (ops : List Op)
+    (hsat : (run (init g tcap) ops).sat = false) :
+    (run (init g tcap) ops).aunder = false :=
+  ((run_finv ops _ (init_finv g tcap) (init_ainv g tcap)).val hsat).1
+
 /-- For all histories: `available[i]`, plus the announcements still in transit, equals the number
-    of connected peers whose bitmap has `i`, plus the retractions still in transit (as long as
-    neither "Eek!" branch of `noteAvailable` was taken). -/
+    of connected peers whose bitmap has `i`, plus the retractions still in transit.  (No hypothesis
+    about the underflow branch any more: `C09_available_never_underflows`.) -/
 theorem C09_available_conserved (g : Geom) (tcap : Nat) (ops : List Op) (i : Nat)
-    (hunder : (run (init g tcap) ops).aunder = false) (hsat : (run (init g tcap) ops).sat = false) :
+    (hsat : (run (init g tcap) ops).sat = false) :
     getN (run (init g tcap) ops).avail i + plusT (run (init g tcap) ops) i
       = advertised (run (init g tcap) ops) i + minusT (run (init g tcap) ops) i := by
   have hI := run_ainv ops _ (init_ainv g tcap)
   rw [advertised_eq _ hI.1, plusT_eq, minusT_eq]
-  exact hI.2 hunder hsat i
+  exact hI.2 (C09_available_never_underflows g tcap ops hsat) hsat i
 
 /-- … hence, once events in transit have been processed, the number of connected peers currently
     advertising the piece; zero when nobody is connected. -/
 theorem C09_available_quiescent (g : Geom) (tcap : Nat) (ops : List Op) (i : Nat)
-    (hunder : (run (init g tcap) ops).aunder = false) (hsat : (run (init g tcap) ops).sat = false)
+    (hsat : (run (init g tcap) ops).sat = false)
     (hq : quiescent (run (init g tcap) ops)) :
     getN (run (init g tcap) ops).avail i = advertised (run (init g tcap) ops) i ∧
     ((∀ p ∈ (run (init g tcap) ops).peers, p.alive = false) → getN (run (init g tcap) ops).avail i = 0) := by
-  have h := C09_available_conserved g tcap ops i hunder hsat
+  have h := C09_available_conserved g tcap ops i hsat
   obtain ⟨h1, h2⟩ := hq
   have z : ∀ (f : TorEv → Nat), transit f (run (init g tcap) ops) = 0 := by
     intro f
@@ -215,6 +228,81 @@ theorem C09_available_quiescent (g : Geom) (tcap : Nat) (ops : List Op) (i : Nat
     apply sumL_zero
     intro p hp
     simp [hgone p hp]
+  omega
+
+/-! ### no counter saturates under the scheduler's guards -/
+
+/-- `Guarded` (Model/Sched.lean) makes the enabling conditions of the real scheduler explicit: a block
+    is requested from a peer only while `inFlight + (its multiplicity in the request) ≤ 3`
+    (`periodicRequest`: `inFlight < maxInFlight(prio) ≤ 3` per entry), at most 50 peers ever enter the
+    peer table, and no block is covered by more than 252 web-seed reservations over the history.
+    Then, in every reachable state: no `uint8`/`uint16` saturated, `inFlight[b] ≤ 3 + (number of
+    web-seed reservations that covered b)`, and the peer table has at most 50 entries.
+    (The bound "≤ 4" does NOT hold for the code as written: `maybeWebseed` tests `inFlight == 0` only
+    for the FIRST block of the hole it reserves and increments every block of the hole, so
+    reservations can stack on a block; the bound below is the one that is true.) -/
+theorem C09_no_saturation (g : Geom) (tcap : Nat) (ops : List Op) (hG : Guarded (init g tcap) ops) :
+    (run (init g tcap) ops).sat = false ∧
+    (∀ b, getN (run (init g tcap) ops).inFlight b ≤ 3 + resv (run (init g tcap) ops) b) ∧
+    (run (init g tcap) ops).peers.length ≤ 50 := by
+  have hK := run_kinv ops _ (init_kinv g tcap) (init_finv g tcap) (init_ainv g tcap) hG
+  exact ⟨hK.nosat, hK.bound, hK.npeers⟩
+
+/-- `C09_inflight_conserved` without the saturation hypothesis -/
+theorem C09_inflight_conserved_guarded (g : Geom) (hg : g.Valid) (tcap : Nat) (ops : List Op) (b : Nat)
+    (hb : b < g.nchunks) (hG : Guarded (init g tcap) ops)
+    (hpanic : (run (init g tcap) ops).panicked = false) :
+    getN (run (init g tcap) ops).inFlight b = owed (run (init g tcap) ops) b :=
+  C09_inflight_conserved g hg tcap ops b hb hpanic (C09_no_saturation g tcap ops hG).1
+
+/-- `C09_available_conserved` with no hypothesis about the counters at all -/
+theorem C09_available_conserved_guarded (g : Geom) (tcap : Nat) (ops : List Op) (i : Nat)
+    (hG : Guarded (init g tcap) ops) :
+    (run (init g tcap) ops).aunder = false ∧
+    getN (run (init g tcap) ops).avail i + plusT (run (init g tcap) ops) i
+      = advertised (run (init g tcap) ops) i + minusT (run (init g tcap) ops) i :=
+  ⟨C09_available_never_underflows g tcap ops (C09_no_saturation g tcap ops hG).1,
+   C09_available_conserved g tcap ops i (C09_no_saturation g tcap ops hG).1⟩
+
+/-- `available[i]` never exceeds the size of the peer table (≤ 50 = `MaxPeersPerTorrent`) -/
+theorem C09_available_bounded (g : Geom) (tcap : Nat) (ops : List Op) (i : Nat)
+    (hG : Guarded (init g tcap) ops) :
+    getN (run (init g tcap) ops).avail i ≤ 50 := by
+  obtain ⟨hs, _, hn⟩ := C09_no_saturation g tcap ops hG
+  have hF := run_finv ops _ (init_finv g tcap) (init_ainv g tcap)
+  rw [((hF.val hs).2 i)]
+  have := sumI_le_length (wB (run (init g tcap) ops).tEvent i) (wB_le_one _ i)
+    ((run (init g tcap) ops).peers.map strip) 0
+  simp at this
+  omega
+
+/-! ### every commanded block is answered: lifted to histories -/
+
+/-- For every history, every peer `k` and every block `b`: the number of times `b` occurred in a
+    PeerRequest that peer `k` accepted (`request` answered ok) equals the number of TorData/TorDrop
+    answers covering `b` that `k` emitted, plus the requests for `b` that `delPeer` released on its
+    behalf when it had left (fix C09-03), plus what is still pending at `k` (in its command channel,
+    queued or sent). -/
+theorem C09_history_answered (g : Geom) (hg : g.Valid) (tcap : Nat) (ops : List Op) (k b : Nat) :
+    histAccepted k b (init g tcap) ops
+      = histAnswered k b (init g tcap) ops + histDrained k b (init g tcap) ops
+        + pend k b (run (init g tcap) ops) := by
+  have h := run_pend k b ops _ (init_inv g hg tcap)
+  have h0 : pend k b (init g tcap) = 0 := by simp [pend, pendL, init]
+  omega
+
+/-- … hence once the peer has left and its TorPeerGoaway has been handled, everything it ever
+    accepted was answered (or released by `delPeer`). -/
+theorem C09_history_settled (g : Geom) (hg : g.Valid) (tcap : Nat) (ops : List Op) (k b : Nat) (p : Peer)
+    (hp : (run (init g tcap) ops).peers[k]? = some p) (hdead : p.alive = false) (hq : p.evq = []) :
+    histAccepted k b (init g tcap) ops
+      = histAnswered k b (init g tcap) ops + histDrained k b (init g tcap) ops := by
+  have h := C09_history_answered g hg tcap ops k b
+  have hI := run_inv ops _ (init_inv g hg tcap)
+  obtain ⟨a1, a2⟩ := hI.1.deadOK p (mem_of_get _ _ _ hp) hdead
+  have : pend k b (run (init g tcap) ops) = 0 := by
+    unfold pend; rw [pendL_of_get k b _ p hp]
+    simp [outstanding_def, a1, a2, hq]
   omega
 
 /-! ### chunk arithmetic (`uint32`, as written) -/
@@ -336,5 +424,23 @@ example : (run (init { ps := 32768, len := 50000 } 8) demoOps).inFlight = [0, 0,
   decide
 
 example : (run (init { ps := 32768, len := 50000 } 8) (demoOps.take 5)).inFlight = [1, 0, 0, 1] := by decide
+
+/-- the guards are satisfiable: a connect and a request of two fresh blocks -/
+example : Guarded (init { ps := 32768, len := 50000 } 8) [.connect true 8 64, .request 0 [0, 3] false] := by
+  refine ⟨(by decide : (0 : Nat) < 50), ?_, trivial⟩
+  intro c hc
+  have h0 : (step (init { ps := 32768, len := 50000 } 8) (.connect true 8 64)).1.inFlight = [0, 0, 0, 0] := by decide
+  rw [h0]
+  simp only [cnt_cons, cnt_nil] at hc ⊢
+  by_cases h1 : 0 = c
+  · subst h1; simp [getN]
+  · by_cases h3 : 3 = c
+    · subst h3; simp [getN]
+    · simp [h1, h3] at hc
+
+/-- the history counters on the demo: block 3 was accepted once by peer 0 and answered once -/
+example : histAccepted 0 3 (init { ps := 32768, len := 50000 } 8) demoOps = 1 ∧
+    histAnswered 0 3 (init { ps := 32768, len := 50000 } 8) demoOps = 1 ∧
+    histDrained 0 2 (init { ps := 32768, len := 50000 } 8) demoOps = 1 := by decide
 
 end Storrent.Props.C09
